@@ -142,7 +142,7 @@ CHECKS = {
     ),
     "C02": dict(
         level="fault_enumeration",
-        rule=("SingleFaults (exhaustive): 10 fixed step scenarios (plain step; first step with configured start; first step at the head; reorg unwinding 1 and 3 positions; reorg with batch 3; step with a reference lookup; with notifications; concurrency 3; transaction indexing with receipts). Each is run fault-free once to record the I/O operations of the observed step "
+        rule=("SingleFaults (exhaustive): 12 fixed step scenarios (plain step; first step with configured start; first step at the head; reorg unwinding 1 and 3 positions; reorg with batch 3 (dense and sparse contents); reorg with batch 2 after single-block growth; step with a reference lookup; with notifications; concurrency 3; transaction indexing with receipts). Each is run fault-free once to record the I/O operations of the observed step "
               "(every fakepg operation: begin, each statement, COPY start, COPY end, commit, rollback; every JSON-RPC HTTP request), then re-run from scratch once per (operation x fault kind): database {error reply, connection drop before executing, drop after executing but before the reply, process death before/after}, RPC {503, closed connection, invalid JSON, truncated body, process death}. "
               "Oracle: the Auditor runs inside fakepg's commit hook (every observable state), after the faulted step, and after the restart: for every pair no row lies beyond the recorded position and the rows are exactly those of the blocks first..position in the versions indexed; after the fault clears, retrying reaches the head with table == projection of the canonical chain. "
               "MultiFault: rapid histories (grow / reorg / restart / step with 0-3 random faults at random operation indexes) with the same Auditor. non-trivial = the fault fired at a write (COPY, cursor insert/delete) or at a commit."),
@@ -150,7 +150,7 @@ CHECKS = {
         assumptions=["fakepg models read-committed transactions, rollback on connection loss and the ambiguous-commit case (commit applied, reply lost); lock waits between concurrent transactions are not modelled",
                      "'process death' = all connections closed and pool, tasks, clients and caches rebuilt from configuration"],
         units=[
-            P("TestC02_SingleFaults", shards=10),
+            P("TestC02_SingleFaults", shards=12),
             R("TestC02_MultiFault", 1600, 40000, shards=16),
         ],
     ),
